@@ -23,6 +23,7 @@ type Env struct {
 	Scratch    string
 	Bin        string // worker test binary (plain)
 	BinRace    string // worker test binary (-race)
+	BinCover   string // worker test binary (-cover), thorough tier only
 	ModPath    string
 	Sites      map[int]Site
 	SiteList   []Site
@@ -98,6 +99,45 @@ func (pr *ProcResult) InFlight() (task, op int, ok bool) {
 func (e *Env) Run(p *plan.Plan) *ProcResult { return e.RunOpt(p, 90*time.Second, "") }
 
 // RunOpt executes one plan in a fresh worker process.
+// RunCover executes a plan with the coverage build and returns the profile text.
+func (e *Env) RunCover(p *plan.Plan) string {
+	if e.BinCover == "" {
+		return ""
+	}
+	e.sem <- struct{}{}
+	defer func() { <-e.sem }()
+	n := atomic.AddInt64(&e.runCounter, 1)
+	dir := filepath.Join(e.Scratch, "runs", fmt.Sprintf("c%d", n))
+	os.MkdirAll(filepath.Join(dir, "tmp"), 0o755)
+	defer os.RemoveAll(dir)
+	pb, _ := json.Marshal(p)
+	planPath := filepath.Join(dir, "plan.json")
+	os.WriteFile(planPath, pb, 0o644)
+	prof := filepath.Join(dir, "cover.out")
+	ctx, cancel := context.WithTimeout(context.Background(), 120*time.Second)
+	defer cancel()
+	cmd := exec.CommandContext(ctx, e.BinCover, "-test.run", "^TestWorker$", "-test.timeout", "0", "-test.coverprofile", prof)
+	cmd.Dir = dir
+	cmd.Env = append(os.Environ(), "VERIF_PLAN="+planPath, "VERIF_OUT="+filepath.Join(dir, "out.json"), "VERIF_TMP="+filepath.Join(dir, "tmp"),
+		"VERIF_MODPATH="+e.ModPath, "GOMAXPROCS=4")
+	cmd.Run()
+	b, _ := os.ReadFile(prof)
+	return string(b)
+}
+
+// buildCover builds the coverage variant of the worker.
+func (e *Env) buildCover() error {
+	bin := filepath.Join(e.Scratch, "worker-cover.test")
+	c := exec.Command("go1.26.8", "test", "-c", "-vet=off", "-cover", "-covermode=set", "-coverpkg="+e.ModPath+"/...", "-o", bin, "./worker")
+	c.Dir = filepath.Join(e.Scratch, "sim")
+	c.Env = append(os.Environ(), "GOFLAGS=-mod=mod", "GOPROXY=off", "GOSUMDB=off", "GOTOOLCHAIN=local")
+	if o, err := c.CombinedOutput(); err != nil {
+		return fmt.Errorf("building coverage worker: %v\n%s", err, o)
+	}
+	e.BinCover = bin
+	return nil
+}
+
 func (e *Env) RunOpt(p *plan.Plan, wallCap time.Duration, eventLog string, gomaxOpt ...string) *ProcResult {
 	e.sem <- struct{}{}
 	defer func() { <-e.sem }()
